@@ -1,5 +1,6 @@
 import Ach.Proofs.Tamper
 import Ach.Props.C03
+import Ach.Props.Dispatch
 /-!
 # C04 — tampered or truncated files are never accepted as something else
 
@@ -18,8 +19,20 @@ batch at its control record and `File.Validate` runs for the file control.  The 
 to "field value changed" is the layout theorem of C01 (each protected field is a `num`/`raw` span) together with
 `digit_flip_changes_number`.
 
-Truncation (`no proper prefix is accepted as a different file`) is *not* proved here: it needs the Reader's
-end-of-input checks, which are not modelled yet; the oracle enumerates every truncation offset of every sampled file.
+Truncation (`no proper prefix of the text is accepted as a different file`), on the Reader's dispatcher model
+(`Ach.ReaderSM`, facts and correspondence in `Ach.Props.Dispatch`), by where the cut falls in a written file
+`header, batches…, file control, 9-filler…`:
+
+* before the file control record, at a record boundary or inside a record — `truncated_before_control_rejected`:
+  what is left holds no file control record (a cut record keeps its first column), so `Read` reports `ErrFileControl`;
+* inside the file control record — `truncated_inside_control`: the Reader returns the same tree with the cut record as
+  its control, and then either the record or the file fails validation or every integrity field still has its value —
+  `truncated_control_rejected_or_same`; a cut at or before the end of the entry/addenda count (columns 14-21,
+  `file_control_columns`) always changes that count, which is positive in a valid file — `truncated_count_differs`;
+* after the file control — `truncated_in_filler_same_or_rejected`: filler records are not part of the file; a filler cut
+  after its first column reads as a second file control and is refused.
+
+The oracle additionally enumerates every truncation offset of every sampled file against the real Reader.
 -/
 namespace Ach.Props.C04
 open Ach Ach.Gen
@@ -131,5 +144,69 @@ theorem tamper_file_control_rejected (f : VFile) (c' : VFileControl) (hacc : fil
     · exact absurd (g5.trans h5.symm) h
     · exact absurd (g3.trans h3.symm) h
     · exact absurd (g4.trans h4.symm) h
+
+/-! ## truncation -/
+
+open Ach.ReaderSM in
+/-- **a transfer cut short before the file control record** is rejected: the records before the cut are a prefix of
+what the Writer emitted ahead of the control; `tail` is the remainder of a record the cut fell into, if any — it keeps
+its first column, so it is not a file control record -/
+theorem truncated_before_control_rejected (t : Tree) (ht : WFTree t) (j : Nat) (tail : List Rec)
+    (htail : ∀ r ∈ tail, r.isFC = false) :
+    (read ((body t).take j ++ tail)).errs ≠ [] := by
+  intro h
+  have := Dispatch.read_truncated_body t ht j tail htail
+  rw [h] at this
+  simp at this
+
+open Ach.ReaderSM in
+/-- **cut inside the file control record**: same tree, the cut record as control; accepted by the Reader only if that
+record validates -/
+theorem truncated_inside_control (t : Tree) (ht : WFTree t) (ok okAdv : Bool) (id : Nat) :
+    read (body t ++ [.fc ok okAdv id]) = expected { t with control := .fc ok okAdv id } :=
+  Dispatch.read_truncated_control t ht ok okAdv id
+
+/-- …and then validation either refuses the file or the control's integrity fields are all what they were -/
+theorem truncated_control_rejected_or_same (f : VFile) (c' : VFileControl) (hacc : fileValidate {} f = true) :
+    fileValidate {} { f with control := c' } = false ∨
+    (c'.batchCount = f.control.batchCount ∧ c'.entryAddendaCount = f.control.entryAddendaCount ∧
+      c'.entryHash = f.control.entryHash ∧ c'.totalDebit = f.control.totalDebit ∧ c'.totalCredit = f.control.totalCredit) := by
+  by_cases h1 : c'.batchCount = f.control.batchCount
+  · by_cases h2 : c'.entryAddendaCount = f.control.entryAddendaCount
+    · by_cases h3 : c'.entryHash = f.control.entryHash
+      · by_cases h4 : c'.totalDebit = f.control.totalDebit
+        · by_cases h5 : c'.totalCredit = f.control.totalCredit
+          · exact Or.inr ⟨h1, h2, h3, h4, h5⟩
+          · exact Or.inl (tamper_file_control_rejected f c' hacc (Or.inr (Or.inr (Or.inr (Or.inr h5)))))
+        · exact Or.inl (tamper_file_control_rejected f c' hacc (Or.inr (Or.inr (Or.inr (Or.inl h4)))))
+      · exact Or.inl (tamper_file_control_rejected f c' hacc (Or.inr (Or.inr (Or.inl h3))))
+    · exact Or.inl (tamper_file_control_rejected f c' hacc (Or.inr (Or.inl h2)))
+  · exact Or.inl (tamper_file_control_rejected f c' hacc (Or.inl h1))
+
+/-- a zero-padded decimal field cut after `j` of its columns (the Reader pads with blanks) parses to a different
+number whenever the field's value is positive — the entry/addenda count of a file with at least one entry is -/
+theorem truncated_count_differs (ds : Str) (j : Nat) (hd : ds.all isDigit = true) (hlen : ds.length ≤ 18)
+    (hj : j < ds.length) (hpos : 0 < digitsVal ds) :
+    parseNumField (ds.take j ++ spaces (ds.length - j)) ≠ parseNumField ds :=
+  truncated_number_differs ds j hd hlen hj hpos
+
+/-- non-vacuity: the count `00000012` cut after 7, 3 or 0 columns reads as 1, 0, 0 -/
+example : parseNumField ("0000001".toList ++ spaces 1) = 1 ∧ parseNumField ("000".toList ++ spaces 5) = 0 ∧
+    parseNumField (spaces 8) = 0 ∧ parseNumField "00000012".toList = 12 := by decide
+
+/-- F: the columns of the file control record: everything after column 55 is the reserved blank field, the
+entry/addenda count ends at column 21 -/
+theorem file_control_columns :
+    (parse_FileControl.spans.map fun s => (s.field, s.lo, s.hi)) =
+      [("", 0, 1), ("BatchCount", 1, 7), ("BlockCount", 7, 13), ("EntryAddendaCount", 13, 21), ("EntryHash", 21, 31),
+       ("TotalDebitEntryDollarAmountInFile", 31, 43), ("TotalCreditEntryDollarAmountInFile", 43, 55), ("", 55, 94)] := by decide +kernel
+
+open Ach.ReaderSM in
+/-- **cut inside the blocking filler**: with any number of whole filler records the file reads as itself
+(`Dispatch.read_emit`); a last filler cut after its first column is a second file control record and is refused -/
+theorem truncated_in_filler_same_or_rejected (t : Tree) (ht : WFTree t) (n : Nat) :
+    read (emit t ++ List.replicate n .filler) = expected t ∧
+    ∀ a b i, (read (emit t ++ List.replicate n .filler ++ [.fc a b i])).errs ≠ [] :=
+  ⟨Dispatch.read_emit t ht n, fun a b i => Dispatch.read_truncated_filler t ht n a b i⟩
 
 end Ach.Props.C04
